@@ -83,6 +83,23 @@ def extract(repo):
     ci = re.sub(r"\s+", "", _sc._blank_strings(_sc._func_body(src, r"static\s+bool\s+checkItem\s*\(\s*Type\s+t\s*,")))
     if ci.count("if(parent->search_id==NOTKNOWN){(*unknowncnt)--;}") != 3 or ci.count("if(parent->search_id!=NOTKNOWN){parent->search_id=NOTKNOWN;(*unknowncnt)++;}") != 1:
         raise ValueError("checkItem: the unknowncnt bookkeeping (three guarded decrements, one guarded increment) changed")
+    # print_schemas_separate: is a schema that can only be printed in part put back and revisited (the deferral of fix C17-5)?
+    ps = re.sub(r"\s+", "", _sc._blank_strings(_sc._func_body(src, r"void\s+print_schemas_separate\s*\(\s*Express\s+express\s*,")))
+    for need in ("unsetObjs(schema);schema->search_id=PROCESSED;val1=checkTypes(schema);val2=checkEnts(schema);",
+                 "if(val1||val2){", "suffix=++*(int*)schema->clientData;SCHEMAprint(schema,files,complexCol,suffix);",
+                 "SCHEMAprint(schema,files,complexCol,0);", "complete=complete&&(schema->search_id==PROCESSED);"):
+        if need not in ps:
+            raise ValueError("print_schemas_separate: no longer has " + need)
+    if "resetCanProcess" not in src and "progress" not in ps:
+        defer = "false"
+    else:
+        rc = re.sub(r"\s+", "", _sc._blank_strings(_sc._func_body(src, r"static\s+void\s+resetCanProcess\s*\(\s*Schema\s+schema\s*\)\s*\{")))
+        ok = ("if((val1||val2)&&schema->search_id==UNPROCESSED&&*(int*)schema->clientData==0&&progress){resetCanProcess(schema);complete=false;continue;}" in ps
+              and "boolprogress=true;" in ps and "boolprinted=false;complete=true;" in ps and "if(val1||val2){printed=true;" in ps and "progress=printed;}" in ps
+              and rc.count("if(t->search_id==CANPROCESS){t->search_id=NOTKNOWN;}") == 1 and rc.count("if(ent->search_id==CANPROCESS){ent->search_id=NOTKNOWN;}") == 1)
+        if not ok:
+            raise ValueError("print_schemas_separate / resetCanProcess: not the modelled form of the deferral of partially printable schemas")
+        defer = "true"
     text = f"""/- GENERATED by tools/extract.d/cxxpass.py from src/exp2cxx/multpass.c — do not edit. -/
 namespace StepModel.Generated.CxxPass
 
@@ -104,6 +121,11 @@ inductive SweepLoop where
   deriving DecidableEq, Repr
 
 def sweepLoop : SweepLoop := {loop}
+
+/-- `print_schemas_separate`: a schema of which only a part can be printed, nothing of which has been printed yet, is put back
+    (its CANPROCESS marks become NOTKNOWN again) and revisited, as long as the previous round over the schemas printed something;
+    `false`: it is printed in parts `_1`, `_2`, … at once -/
+def deferPartial : Bool := {defer}
 
 end StepModel.Generated.CxxPass
 """
